@@ -11,7 +11,7 @@ driver ops of C12 (prefix `c12.`)
   appends its id to the empty version, commits / rolls back.  A trailing `!` on a committing role = the pruning
   policy raised during its commit (`ver-` record: the appended version is withdrawn).
 * rec: `<tid>:<label>`: one record per *visible* step of the implementation, in execution order
-  (`acq rel new.E app.E wait.E set.E pop.E txn+ txn- wev- ver nod rd+ rd- ret rret seen`), plus `<tid>:blk`
+  (`acq rel new.E app.E wait.E set.E pop.E txn+ txn- wev- setup ver ver- nod rd+ rd- ret rret seen`), plus `<tid>:blk`
   (the thread is blocked in `acquire`/`wait`) and `0:fin`.
   The silent steps of a thread (`tau`) are run right before its next visible one.
 * output: the abstract shared state after every record, or `!<index>:<reason>` at the first record that is not an
@@ -65,7 +65,7 @@ def mkCfg (rs : List (Role × Nat)) : Cfg :=
 def parseLabel (s : String) : Option WLabel :=
   match splitOnChar s '.' with
   | ["acq"] => some .acq | ["rel"] => some .rel
-  | ["txn+"] => some .txnOpen | ["txn-"] => some .txnClose | ["wev-"] => some .wevClear
+  | ["txn+"] => some .txnOpen | ["txn-"] => some .txnClose | ["wev-"] => some .wevClear | ["setup"] => some .setup
   | ["ver"] => some .ver | ["ver-"] => some .verDrop | ["nod"] => some .nod | ["rd+"] => some .rdAdd | ["rd-"] => some .rdDel
   | ["ret"] => some .ret | ["rret"] => some .rret | ["seen"] => some .seen
   | ["new", e] => e.toNat?.map Writers.Label.new | ["app", e] => e.toNat?.map Writers.Label.app | ["wait", e] => e.toNat?.map Writers.Label.wait
@@ -75,7 +75,7 @@ def parseLabel (s : String) : Option WLabel :=
 def showLabel : WLabel → String
   | .tau => "tau" | .acq => "acq" | .rel => "rel" | .new e => s!"new.{e}" | .app e => s!"app.{e}"
   | .wait e => s!"wait.{e}" | .set e => s!"set.{e}" | .pop e => s!"pop.{e}" | .txnOpen => "txn+"
-  | .txnClose => "txn-" | .wevClear => "wev-" | .ver => "ver" | .verDrop => "ver-" | .nod => "nod" | .rdAdd => "rd+" | .rdDel => "rd-"
+  | .txnClose => "txn-" | .wevClear => "wev-" | .setup => "setup" | .ver => "ver" | .verDrop => "ver-" | .nod => "nod" | .rdAdd => "rd+" | .rdDel => "rd-"
   | .ret => "ret" | .rret => "rret" | .seen => "seen" | .stuck => "stuck"
 
 def localSuffix (s : State) (t : Tid) : WLabel → String
